@@ -190,7 +190,9 @@ Definition table_ok (t : cls -> clsinfo) : bool := forallb (fun c => info_ok (t 
 (* =====================================================================================
    Model of Qube.__init__'s structural part: mk_qube
    ===================================================================================== *)
-Inductive mask_arg := MABool (b : bool) | MAArr (s : list nat) (writeable : bool).
+(* a mask array of shape s; [v0] is the value of its element when it is 0-d (a shapeless mask given
+   for a shapeless object is turned into a Python bool by _suitable_mask) *)
+Inductive mask_arg := MABool (b : bool) | MAArr (s : list nat) (writeable : bool) (v0 : bool).
 Record ctor_args := mkargs {
   a_cls : cls;
   a_full : list nat;             (* np.shape(values) ([] for a Python scalar or 0-d array) *)
@@ -239,7 +241,8 @@ Definition mk_qube (t : cls -> clsinfo) (a : ctor_args) : option snapshot :=
     let ro := isarr && negb vw in
     match (match a_mask a with
            | MABool b => Some (MBool b, @None bool)
-           | MAArr s w =>
+           | MAArr s w v0 =>
+               if is_nil s && is_nil shape then Some (MBool v0, @None bool) else
                if leqb s shape then Some (MArr KBool shape, Some (w && negb ro))
                else match bshape s shape with
                     | Some r => if leqb r shape then Some (MArr KBool shape, Some false) else None
